@@ -6,7 +6,7 @@ From Coq Require Import Sorted.
 From BV Require Import Base.Prelude Model.Block Model.ForkDB Model.Forkable Model.ForkableLookups Model.Burst Model.Hub
   Model.CursorResolver Model.Joining
   Spec.Consumer Spec.Universe Check.Fk_Check Check.Burst_Check Check.C07_Check
-  Spec.C09_Spec Spec.C05_Spec Spec.C06_Spec Spec.C07_Spec Spec.C13_Spec Spec.C07_Compose_Spec Spec.C07_Shapes_Spec Spec.C07_More_Spec
+  Spec.C09_Spec Spec.C05_Spec Spec.C06_Spec Spec.C07_Spec Spec.C13_Spec Spec.C07_Compose_Spec Spec.C07_Shapes_Spec Spec.C07_More_Spec Spec.C13_More_Spec
   Spec.C01_Spec Spec.C01_Moving_Spec Spec.C01_Roots_Spec
   Proofs.C06_Lists Proofs.C06_Resolver Proofs.C06_Proofs Proofs.C06_Through Proofs.C13_Proofs
   Proofs.C09_Store Proofs.C09_Segment Proofs.C09_Proofs Proofs.C05_Fast Proofs.C05_Forked
@@ -15,7 +15,7 @@ From BV Require Import Base.Prelude Model.Block Model.ForkDB Model.Forkable Mode
   Proofs.C07_File Proofs.C07_Live
   Proofs.C07_ComposeStack Proofs.C07_ComposeHub Proofs.C07_ComposeRun Proofs.C07_Compose
   Proofs.C07_ComposeCursor Proofs.C07_ComposeCursorLive Proofs.C07_ComposeCursorAll Proofs.C07_ComposeTarget
-  Proofs.C07_FilesFinal Proofs.C07_Raw Proofs.C07_Shapes Proofs.C07_Filters Proofs.C07_ChainFacts Proofs.C07_Delivery Proofs.C07_TargetOff.
+  Proofs.C07_FilesFinal Proofs.C07_Raw Proofs.C07_Shapes Proofs.C07_Filters Proofs.C07_ChainFacts Proofs.C07_Delivery Proofs.C07_TargetOff Proofs.C07_Disc Proofs.C07_FiltersNum.
 Local Open Scope N_scope.
 
 Section TgtRun.
@@ -88,7 +88,7 @@ Section TgtRun.
     In bn canon -> bnum bn = n ->
     (exists x, lnk x (Q ++ [bn])) -> Forall (fun y => In y U) Q ->
     (forall z r, Q ++ [bn] = z :: r -> bnum z <= start) ->
-    exists J1 E, sfold (rev Q) burst = Some J1 /\ Rel U start (V ++ E) J1.
+    exists J1 E, sfold (rev Q) burst = Some J1 /\ Rel U start (V ++ E) J1 /\ disc U start (rev Q) burst.
   Proof.
     intros Hrd HV Hls Eseg Hoff Hn Hb Hbnc Hbnn HlQ HQU Hbot.
     destruct Hto as [Hon|(Lb & HLbc & HLb & Hle & Hun)].
@@ -105,7 +105,9 @@ Section TgtRun.
   Lemma tgt_files : exists D1 D2 fend,
     D = D1 ++ D2 /\
     run_files c (run_start c w) merged_end merged forked = (map fev D1, fend) /\
-    (fend = fend0 \/ fend = JOther).
+    (fend = fend0 \/ fend = JOther) /\
+    (* a cursor below the start block or in the delivery: everything is handed over unless the file source gives up *)
+    (rn (cu_blk cu) < start \/ In B D -> fend = fend0 -> D2 = []).
   Proof.
     clear Hto.
     assert (Hcons : forall b, In b D -> bid b = ri (cu_blk cu) -> bnum b = rn (cu_blk cu)).
@@ -113,14 +115,16 @@ Section TgtRun.
       assert (Hbc : In b canon).
       { apply D_merged in Hb. unfold merged in Hb. apply filter_In in Hb as [Hb _]. exact Hb. }
       pose proof Hchain as [_ Hnd]. rewrite (nodup_ids_eq canon b B Hnd Hbc HBc); [exact EBn | congruence]. }
-    destruct (through_run_prefix merged forked start cu stopf (j_bundle c) (chain_ok_asc D D_ok') Hcons) as (D1 & D2 & ED & Hfst & Hsnd).
-    fold D in ED.
+    destruct (through_run_prefix merged forked start cu stopf (j_bundle c) (chain_ok_asc D D_ok') Hcons) as (D1 & D2 & ED & Hfst & Hsnd & Hall).
+    fold D in ED, Hall.
     exists D1, D2. unfold run_files. rewrite Hmode, Hcur, Hstart. cbn [N.eqb Pos.eqb].
     change (if j_stop c =? 0 then 1000000000000 else j_stop c) with stopf.
-    destruct (through_cursor_run merged forked start cu stopf (j_bundle c)) as [fevs r]. cbn [fst snd] in Hfst, Hsnd. subst fevs.
+    destruct (through_cursor_run merged forked start cu stopf (j_bundle c)) as [fevs r]. cbn [fst snd] in Hfst, Hsnd, Hall. subst fevs.
     destruct Hsnd as [E|E]; subst r.
-    - exists fend0. split; [exact ED|]. split; [reflexivity | left; reflexivity].
-    - exists JOther. split; [exact ED|]. split; [reflexivity | right; reflexivity].
+    - exists fend0. split; [exact ED|]. split; [reflexivity|]. split; [left; reflexivity|].
+      intros Hc _. apply Hall; [|reflexivity]. destruct Hc as [Hc|Hc]; [left; exact Hc | right; exists B; split; [exact Hc | rewrite <- HB; reflexivity]].
+    - exists JOther. split; [exact ED|]. split; [reflexivity|]. split; [right; reflexivity|].
+      intros _ E1. exfalso. unfold fend0 in E1. destruct (negb (j_stop c =? 0) && ((j_stop c / j_bundle c + 1) * j_bundle c <=? merged_end)); discriminate.
   Qed.
 
   (* ---------------------------------------------------------------- the raw sequence of the run *)
@@ -129,18 +133,21 @@ Section TgtRun.
     (exists D1 D2, from_num start merged = D1 ++ D2 /\ rev J = D1) \/ from_num start (rev J) = from_num start canon.
 
   Lemma tgt_core :
-    exists X J, sfold [] X = Some J /\
-      ((exists P, raw_out c X res P /\ (P -> tgt_done J)) \/
-       (exists fend, files_out c X fend res /\ (fend = JNil -> tgt_done J)) \/
-       (X = [] /\ fst res = [] /\ snd res <> JNil)).
+    exists X J, sfold [] X = Some J /\ disc U start [] X /\
+      ((run_rejected c w = false /\ exists P, raw_out c X res P /\ (P -> tgt_done J)) \/
+       (run_rejected c w = false /\
+        exists fend D1 D2, D = D1 ++ D2 /\ X = map fev D1 /\ J = rev D1 /\ files_out c X fend res /\
+          (fend = fend0 \/ fend = JOther) /\ (rn (cu_blk cu) < start \/ In B D -> fend = fend0 -> D2 = []) /\
+          (fend = JNil -> tgt_done J)) \/
+       (X = [] /\ fst res = [] /\ snd res <> JNil /\ snd res <> JStop)).
   Proof.
     pose proof (c07_run_shapes_proof c w ps merged_end merged forked) as Hsh. cbv zeta in Hsh.
-    destruct tgt_files as (D1 & D2 & fend & ED & Erf & Hfend). rewrite Erf in Hsh. cbn [fst snd] in Hsh. fold res in Hsh.
+    destruct tgt_files as (D1 & D2 & fend & ED & Erf & Hfend & Hall2). rewrite Erf in Hsh. cbn [fst snd] in Hsh. fold res in Hsh.
     rewrite Hstart in Hsh.
     assert (Hseen : forall X, seen c X = X) by (intros X; apply seen_stateless; exact (has_nu_not_final c Hnu)).
     destruct (lnk_of_chain_ok D D_ok') as [x0 HlD].
     destruct Hsh as [[_ Hr]|[Hrej [(burst & k & Hlt & Hro)|[[_ Hr]|[Hlt [(pre & e & rest0 & m & lowest & burst & k & Ef & Hns & Hj & Hro)|Hfo']]]]]].
-    - exists [], []. split; [reflexivity|]. right. right. rewrite Hr. split; [reflexivity|]. split; [reflexivity | discriminate].
+    - exists [], []. split; [reflexivity|]. split; [apply disc_nil; left; reflexivity|]. right. right. rewrite Hr. split; [reflexivity|]. split; [reflexivity|]. split; discriminate.
     - (* live from the start *)
       rewrite Hseen in Hro.
       unfold live_try in Hlt. rewrite Hmode, Hcur in Hlt. cbn [N.eqb Pos.eqb] in Hlt.
@@ -151,13 +158,15 @@ Section TgtRun.
         as (hd & sg & Hls & Eseg & Hgood & [(Hle & Hoff & Hbt)|(_ & pre & post & Hsg & Hpre & Hpost & Hevs & Hfirst & _)]).
       { (* the cursor block is stored off the hub's chain *)
         destruct Hstartblk as (b0 & Hb0c & Hb0n).
-        destruct (tgt_off 0%nat V hd sg start burst [] b0 Hrd HV Hls Eseg Hoff Hle Hbt Hb0c Hb0n) as (J1 & E & Hfold & HR).
+        destruct (tgt_off 0%nat V hd sg start burst [] b0 Hrd HV Hls Eseg Hoff Hle Hbt Hb0c Hb0n) as (J1 & E & Hfold & HR & Hdb).
         - exists (bparent b0). cbn [app lnk]. auto.
         - constructor.
         - intros z r Ez. cbn [app] in Ez. injection Ez as <- _. lia.
-        - destruct (cursor_live_raw U c canon start U_id U_uniq U_up D_decl HcU Hcl Hsl w V E [] burst J1 k
-                      (conj Hrd (conj HV Hrest)) Htip Hfold HR) as (J & HJ & Hfin).
-          exists (burst ++ pushed c k w), J. split; [exact HJ|]. left.
+        - cbn [rev] in Hfold, Hdb.
+          destruct (live_raw U c canon start U_id U_uniq U_up D_decl HcU Hcl Hsl w V E J1 k (conj Hrd (conj HV Hrest)) Htip HR)
+            as (Hdl & Vk & Jk & HJk & _ & _ & Hfin).
+          exists (burst ++ pushed c k w), Jk. split; [rewrite sfold_app, Hfold; exact HJk|].
+          split; [exact (disc_app U start [] J1 _ _ Hdb Hfold Hdl)|]. left. split; [exact Hrej|].
           exists (w_rest (world_after c k w) = []). split; [exact Hro|]. intros HP. right. exact (Hfin HP). }
       assert (Hmap : map eblk burst = map seg_blk post) by (rewrite Hevs; apply map_eblk_snap).
       assert (Hnew : Forall (fun e => matches_new (estep e) = true) burst).
@@ -191,11 +200,15 @@ Section TgtRun.
           exact (cursor_live_rel U first kept U_id U_uniq U_up _ V hd sg pre0 xl post (seg_blk xl) start HV Hls Eseg Hgood Hsg eq_refl
                    (Forall_inv HpU) Hl (Forall_inv_tail HpU) Hxln). }
       destruct HRel as [E HR].
-      destruct (cursor_live_raw U c canon start U_id U_uniq U_up D_decl HcU Hcl Hsl w V E [] burst
-                  (rev (map seg_blk post)) k (conj Hrd (conj HV Hrest)) Htip Hfold HR) as (J & HJ & Hfin).
-      exists (burst ++ pushed c k w), J. split; [exact HJ|]. left.
+      assert (Hdb : disc U start [] burst).
+      { apply (disc_undo_push U start [] [] burst (rev (map seg_blk post))); [left; reflexivity | right; exists (V ++ E); exact HR | constructor | | exact Hfold].
+        eapply Forall_impl; [|exact Hnew]. cbn beta. intros e He. destruct (estep e); try discriminate; reflexivity. }
+      destruct (live_raw U c canon start U_id U_uniq U_up D_decl HcU Hcl Hsl w V E (rev (map seg_blk post)) k (conj Hrd (conj HV Hrest)) Htip HR)
+        as (Hdl & Vk & Jk & HJk & _ & _ & Hfin).
+      exists (burst ++ pushed c k w), Jk. split; [rewrite sfold_app, Hfold; exact HJk|].
+      split; [exact (disc_app U start [] _ _ _ Hdb Hfold Hdl)|]. left. split; [exact Hrej|].
       exists (w_rest (world_after c k w) = []). split; [exact Hro|]. intros HP. right. exact (Hfin HP).
-    - exists [], []. split; [reflexivity|]. right. right. rewrite Hr. split; [reflexivity|]. split; [reflexivity | discriminate].
+    - exists [], []. split; [reflexivity|]. split; [apply disc_nil; left; reflexivity|]. right. right. rewrite Hr. split; [reflexivity|]. split; [reflexivity|]. split; discriminate.
     - (* files, then the join *)
       rewrite !Hseen in *.
       apply map_eq_app in Ef as (Dpre & D3 & ED1 & Epre & E3). apply map_eq_cons in E3 as (bn & D' & ED3 & Ebn & _).
@@ -218,29 +231,32 @@ Section TgtRun.
         assert (HDU : Forall (fun y => In y U) Dpre).
         { apply Forall_forall. intros y Hy. apply HmU, Hin1. apply in_or_app. left. exact Hy. }
         destruct (tgt_off m V hd sg (bnum bn) burst Dpre bn Hrd HV Hls Eseg Hoff Hle Hbt (Hmc bn Hbn) eq_refl Hl1 HDU Hbot1)
-          as (J1 & E & Hfold & HR).
-        destruct (files_raw U start merged HmU Dpre) as (Hfd & _ & _).
+          as (J1 & E & Hfold & HR & Hdb).
+        destruct (files_raw U start merged HmU Dpre) as (Hfd & Hdf & _).
         { destruct Hl1 as [x1 Hl1]. exists x1. eapply linked_prefix. exact Hl1. }
         { intros b Hb. apply Hin1. apply in_or_app. left. exact Hb. }
         { intros z r Ez. apply (Hbot1 z (r ++ [bn])). rewrite Ez. reflexivity. }
-        destruct (cursor_live_raw U c canon start U_id U_uniq U_up D_decl HcU Hcl Hsl wj V E (rev Dpre) burst J1 k
-                    (conj Hrd (conj HV Hrestj)) (tip_after c canon w m Htip) Hfold HR) as (J & HJ & Hfin).
-        exists (map fev Dpre ++ burst ++ pushed c k wj), J. split; [rewrite sfold_app, Hfd; exact HJ|]. left.
+        destruct (live_raw U c canon start U_id U_uniq U_up D_decl HcU Hcl Hsl wj V E J1 k (conj Hrd (conj HV Hrestj)) (tip_after c canon w m Htip) HR)
+          as (Hdl & Vk & Jk & HJk & _ & _ & Hfin).
+        exists (map fev Dpre ++ burst ++ pushed c k wj), Jk. split; [rewrite sfold_app, Hfd, sfold_app, Hfold; exact HJk|].
+        split; [exact (disc_app U start [] (rev Dpre) _ _ Hdf Hfd (disc_app U start (rev Dpre) J1 _ _ Hdb Hfold Hdl))|]. left. split; [exact Hrej|].
         exists (w_rest (world_after c k wj) = []). split; [exact Hro|].
         intros HP. right. exact (Hfin HP).
       + destruct (join_raw_at U c canon start U_id U_uniq U_up D_decl HcU Hcl Hsl merged HmU wj V Dpre bn lowest burst k
                     (conj Hokj Hrestj) (tip_after c canon w m Htip) Hrd HV Hgood Hl1 Hin1 Hbot1 Hj)
-          as (_ & J & HJ & _ & Hfin).
-        exists (map fev Dpre ++ burst ++ pushed c k wj), J. split; [exact HJ|]. left.
+          as (Hdj & J & HJ & _ & Hfin).
+        exists (map fev Dpre ++ burst ++ pushed c k wj), J. split; [exact HJ|]. split; [exact Hdj|]. left. split; [exact Hrej|].
         exists (w_rest (world_after c k wj) = []). split; [exact Hro|].
         intros HP. right. exact (Hfin HP).
     - (* files only *)
       rewrite Hseen in Hfo'.
       assert (Hl1 : exists x, lnk x D1) by (exists x0; rewrite ED in HlD; eapply linked_prefix; exact HlD).
-      destruct (files_raw U start merged HmU D1 Hl1) as (Hfd & _ & _).
+      destruct (files_raw U start merged HmU D1 Hl1) as (Hfd & Hdf & _).
       + intros b Hb. apply D_merged. rewrite ED. apply in_or_app. left. exact Hb.
       + intros z r Ez. apply (D_bot' z (r ++ D2)). rewrite ED, Ez. reflexivity.
-      + exists (map fev D1), (rev D1). split; [exact Hfd|]. right. left. exists fend. split; [exact Hfo'|].
+      + exists (map fev D1), (rev D1). split; [exact Hfd|]. split; [exact Hdf|]. right. left. split; [exact Hrej|].
+        exists fend, D1, D2. split; [exact ED|]. split; [reflexivity|]. split; [reflexivity|]. split; [exact Hfo'|].
+        split; [exact Hfend|]. split; [exact Hall2|].
         intros Hf. left. exists D1, D2. split; [|apply rev_involutive].
         destruct Hfend as [E|E]; [|rewrite E in Hf; discriminate]. rewrite E in Hf.
         rewrite <- ED. symmetry. exact (dlv_all c canon start merged_end Hbundle Hbound Hf).
@@ -250,20 +266,56 @@ Section TgtRun.
     exists c', cons_fold_aside cons0 (map as_new (filter is_nu (fst res))) = Some c' /\
       (snd res = JNil ->
          (exists D1 D2, from_num start merged = D1 ++ D2 /\ rev (cs_stack c') = D1) \/
-         from_num start (rev (cs_stack c')) = from_num start canon).
+         from_num start (rev (cs_stack c')) = from_num start canon) /\
+      (rn (cu_blk cu) <= j_stop c -> snd res = JStop -> stop_reached c canon merged start (fst res) (cs_stack c')).
   Proof.
-    destruct tgt_core as (X & J & HJ & [(P & Hro & HP)|[(fend & Hfo' & HP)|(EX & Ef & Hne)]]).
-    - destruct (nu_raw_out_prefix c X res P Hnu Hro) as (Xa & Xb & EX & Efil & Hnil).
-      destruct (nu_fold_prefix [] X Xa Xb J (fst res) EX HJ Efil) as (Ja & Hc' & HJa).
-      exists (mkCons Ja 0 false). split; [exact Hc'|]. intros Hn. cbn [cs_stack].
-      destruct (Hnil Hn) as [-> HPp]. rewrite app_nil_r in EX. subst Xa. rewrite HJ in HJa. injection HJa as <-.
-      exact (HP HPp).
-    - destruct (nu_files_out_prefix c X fend res Hnu Hfo') as (Xa & Xb & EX & Efil & Hnil).
-      destruct (nu_fold_prefix [] X Xa Xb J (fst res) EX HJ Efil) as (Ja & Hc' & HJa).
-      exists (mkCons Ja 0 false). split; [exact Hc'|]. intros Hn. cbn [cs_stack].
-      destruct (Hnil Hn) as [-> Hfe]. rewrite app_nil_r in EX. subst Xa. rewrite HJ in HJa. injection HJa as <-.
-      exact (HP Hfe).
-    - exists cons0. rewrite Ef. split; [reflexivity|]. intros Hn. contradiction.
+    destruct tgt_core as (X & J & HJ & Hd & Hcase).
+    (* the run stopped by the chain on an event of X *)
+    assert (Hstopped : run_rejected c w = false -> snd (upto_stop c X) = true -> fst res = fst (upto_stop c X) ->
+              exists J', sfold [] (filter is_nu (fst res)) = Some J' /\ stop_reached c canon merged start (fst res) J').
+    { intros Hrej Hs Hf. destruct (upto_stop_split c X Hs) as (X1 & e & X2 & EX & Hns & Hse & Hfu).
+      destruct (stops_true c e Hse) as (_ & H0 & _).
+      destruct (stop_event_from U c canon start merged_end U_id U_uniq U_up Hchain Hincl Hsl Hnu [] X X1 e X2 (fun b (H : In b []) => match H with end) Hd EX Hns Hse
+                  (not_rejected_start c start w Hstart Hrej H0)) as (J' & HJ' & Hsr).
+      rewrite Hf, Hfu. exists J'. split; [exact HJ' | exact Hsr]. }
+    destruct Hcase as [(Hrej & P & Hro & HP)|[(Hrej & fend & D1 & D2 & ED & EX & EJ & Hfo' & Hfend & Hall2 & HP)|(EX & Ef & Hne & Hns')]].
+    - unfold raw_out in Hro. destruct (snd res) eqn:Er; try contradiction.
+      + destruct Hro as (Hc & Hns & Hf).
+        exists (mkCons J 0 false). split.
+        * apply cons_of_sfold_nu. rewrite Hf, (nu_delivered c X Hnu Hns), sfold_nu_filter. exact HJ.
+        * split; [intros _; exact (HP Hc) | intros _; discriminate].
+      + destruct Hro as (Hs & Hf). destruct (Hstopped Hrej Hs Hf) as (J' & HJ' & Hsr).
+        exists (mkCons J' 0 false). split; [apply cons_of_sfold_nu; exact HJ'|]. split; [discriminate | intros _ _; exact Hsr].
+      + destruct Hro as (X1 & X2 & EX & Hns & Hf). destruct (Hd X1 X2 EX) as (J' & HJ' & _).
+        exists (mkCons J' 0 false). split; [|split; [discriminate | intros _; discriminate]].
+        apply cons_of_sfold_nu. rewrite Hf, (nu_delivered c X1 Hnu Hns), sfold_nu_filter. exact HJ'.
+    - destruct Hfo' as [[Hns Hr]|[Hs Hr]].
+      + exists (mkCons J 0 false). fold res in Hr. rewrite Hr. cbn [fst snd cs_stack]. split.
+        * apply cons_of_sfold_nu. rewrite (nu_delivered c X Hnu Hns), sfold_nu_filter. exact HJ.
+        * split; [exact HP|].
+          intros Hscope Hfe. left.
+          (* the file source reported the end of the bundle of S *)
+          assert (Ef0 : fend = fend0) by (destruct Hfend as [E|E]; [exact E | rewrite E in Hfe; discriminate]).
+          assert (E0 : j_stop c <> 0).
+          { intros E. rewrite Ef0 in Hfe. unfold fend0 in Hfe. rewrite E in Hfe. discriminate. }
+          assert (Hle : (j_stop c / j_bundle c + 1) * j_bundle c <= merged_end).
+          { rewrite Ef0 in Hfe. unfold fend0 in Hfe. apply N.leb_le.
+            case_eq ((j_stop c / j_bundle c + 1) * j_bundle c <=? merged_end); [reflexivity|].
+            intros E. rewrite E, andb_false_r in Hfe. discriminate. }
+          assert (Estopf : stopf = j_stop c) by (unfold stopf; apply N.eqb_neq in E0; rewrite E0; reflexivity).
+          assert (HD2 : D2 = []).
+          { apply Hall2; [|exact Ef0]. destruct (N.lt_ge_cases (rn (cu_blk cu)) start) as [Hl|Hg]; [left; exact Hl|]. right.
+            destruct (bref_eq _ _ HB) as [_ EBn].
+            pose proof (N.mul_succ_div_gt (j_stop c) (j_bundle c)) as Hdiv. rewrite <- N.add_1_r in Hdiv.
+            unfold D, file_delivery. apply filter_In. split.
+            - unfold merged. apply filter_In. split; [exact HBc | apply N.ltb_lt; nia].
+            - rewrite Estopf. apply andb_true_iff. split; [apply N.leb_le; lia | apply N.ltb_lt; nia]. }
+          rewrite HD2, app_nil_r in ED. rewrite EJ, rev_involutive, <- ED.
+          rewrite EX, <- ED in Hns. rewrite Ef0 in Hfe.
+          exact (marker_case U c canon start w merged_end U_id U_uniq U_up D_decl Hstart Hbundle Hnu Hrej Hfe Hns).
+      + fold res in Hr. destruct (Hstopped Hrej Hs) as (J' & HJ' & Hsr); [rewrite Hr; reflexivity|].
+        exists (mkCons J' 0 false). split; [apply cons_of_sfold_nu; exact HJ'|]. split; [rewrite Hr; discriminate | intros _ _; exact Hsr].
+    - exists cons0. rewrite Ef. split; [reflexivity|]. split; [intros Hn; contradiction | intros _ Hn; contradiction].
   Qed.
 End TgtRun.
 
@@ -276,8 +328,9 @@ Proof.
   pose proof (bridge2_decl_none U Hscope) as Hdecl.
   assert (HW : WOK U c w).
   { split; [|exact Hrest]. rewrite Hhub. apply (hub_ok_run U (j_first c) (j_kept c) Hwfb Hlok l Hl). }
-  exact (tgt_nu U c w ps merged_end canon forked cu B start Hid Huniq Hup Hdecl Hchain Hincl Hstartblk eq_refl HW Htip Hmode Hcur Hnu
-           Hbundle HBc HB Hbound (or_introl Hto)).
+  destruct (tgt_nu U c w ps merged_end canon forked cu B start Hid Huniq Hup Hdecl Hchain Hincl Hstartblk eq_refl HW Htip Hmode Hcur Hnu
+           Hbundle HBc HB Hbound (or_introl Hto)) as (c' & H1 & H2 & _).
+  exists c'. split; [exact H1 | exact H2].
 Qed.
 
 (* without agreement hypothesis, for a cursor with its LIB on canon *)
@@ -290,8 +343,24 @@ Proof.
   pose proof (bridge2_decl_none U Hscope) as Hdecl.
   assert (HW : WOK U c w).
   { split; [|exact Hrest]. rewrite Hhub. apply (hub_ok_run U (j_first c) (j_kept c) Hwfb Hlok l Hl). }
-  exact (tgt_nu U c w ps merged_end canon forked cu B start Hid Huniq Hup Hdecl Hchain Hincl Hstartblk eq_refl HW Htip Hmode Hcur Hnu
-           Hbundle HBc HB Hbound (or_intror Hlib)).
+  destruct (tgt_nu U c w ps merged_end canon forked cu B start Hid Huniq Hup Hdecl Hchain Hincl Hstartblk eq_refl HW Htip Hmode Hcur Hnu
+           Hbundle HBc HB Hbound (or_intror Hlib)) as (c' & H1 & H2 & _).
+  exists c'. split; [exact H1 | exact H2].
+Qed.
+
+(* the stop clause at stream level (Spec/C13_More_Spec.v) *)
+Lemma c13_stop_target_proof : C13_stop_target.
+Proof.
+  intros U c w ps merged_end canon forked cu B Hwfb Hlok [[l [Hl Hhub]] Hrest] Hchain Hincl merged Htip
+         Hmode Hcur Hnu Hbundle Hbound HBc HB Hlib Hscope res start Hstartblk.
+  assert (Hsc : disc_scope2_b U = true) by (unfold disc_scope2_b; rewrite Hwfb, Hlok; reflexivity).
+  pose proof (bridge_id U Hwfb) as Hid. pose proof (bridge_uniq U Hwfb) as Huniq. pose proof (bridge_up U Hwfb) as Hup.
+  pose proof (bridge2_decl_none U Hsc) as Hdecl.
+  assert (HW : WOK U c w).
+  { split; [|exact Hrest]. rewrite Hhub. apply (hub_ok_run U (j_first c) (j_kept c) Hwfb Hlok l Hl). }
+  destruct (tgt_nu U c w ps merged_end canon forked cu B start Hid Huniq Hup Hdecl Hchain Hincl Hstartblk eq_refl HW Htip Hmode Hcur Hnu
+           Hbundle HBc HB Hbound (or_intror Hlib)) as (c' & H1 & _ & H3).
+  exists c'. split; [exact H1 | exact (H3 Hscope)].
 Qed.
 
 Lemma c07_seamless_target_full_proof : C07_seamless_target_full.
